@@ -2,8 +2,8 @@ import GMProofs.Lemmas.CliL
 /-
   C20 — Command-line mapping equals the library workflow; discovery is deterministic.
 
-  Model: `GMModel.Cli` (`Cli.sortMolecules … (repaired := true)` = `sort_molecules` with the repair
-  of D9, `Cli.mainMolecules`, `Cli.outPath`, `Cli.autoMap`, `Cli.libraryWorkflow`).
+  Model: `GMModel.Cli` (`Cli.sortMolecules … (repaired := true)` = `sort_molecules` with the repairs
+  of D9 and O-a, `Cli.mainMolecules`, `Cli.outPath`, `Cli.autoMap`, `Cli.libraryWorkflow`).
   Python `set`s are duplicate-free lists standing for their iteration order; the theorems quantify
   over ALL permutations of them, i.e. over every hash seed and every order of the `--auto` list.
   Only property theorems and their non-vacuity examples live here.
@@ -21,27 +21,31 @@ def candTops (tops : List String) (known : List (String × String × String)) : 
 def candCoords (coords : List String) (known : List (String × String × String)) : List String :=
   coords.filter (fun f => !isKnownCoord known f)
 
-/-- the candidate lists are well formed: they are sets, every candidate topology parses (its
-    molecule name is `nm f`), whether a candidate loads does not depend on the candidates loaded
-    before it, and no two candidates that load carry the same molecule name -/
+/-- the candidate lists are well formed: they are sets; every candidate topology file either IS a
+    molecule topology (its molecule name is `nm f`) or is not one at all (`MoleculeTop` raises
+    `OSError`: force-field include, empty file, … — an ordinary distractor); among the candidates that
+    are molecule topologies (`parsed env T`), whether one loads does not depend on the candidates
+    loaded before it, and no two that load carry the same molecule name -/
 structure WellFormed (env : Env) (base T : List String) (nm : String → String) : Prop where
   nodup : T.Nodup
-  parse : ∀ f ∈ T, env.parseTop f = .ok (nm f)
-  stable : Stable env base T
-  oneStart : ∀ f ∈ T, ∀ g ∈ T, env.loadsAfter base f = true → env.loadsAfter base g = true →
-    nm f = nm g → f = g
+  parse : ∀ f ∈ T, env.parseTop f = .ok (nm f) ∨ env.parseTop f = .error .IOError
+  stable : Stable env base (parsed env T)
+  oneStart : ∀ f ∈ parsed env T, ∀ g ∈ parsed env T, env.loadsAfter base f = true →
+    env.loadsAfter base g = true → nm f = nm g → f = g
 
 /-- `Unambiguous`: each species of the system (= each candidate that loads) has exactly one
     candidate start topology that loads (`oneStart`), at most one OTHER candidate topology carrying
     its name (`oneEnd`), and at most one candidate coordinate file that loads with that topology
-    (`oneCoord`).  Nothing is assumed about the remaining (distractor) candidates. -/
+    (`oneCoord`).  Nothing is assumed about the remaining (distractor) candidates — in particular
+    they need not be molecule topologies. -/
 structure Unambiguous (env : Env) (base T K : List String) (nm : String → String) : Prop
     extends WellFormed env base T nm where
-  oneEnd : ∀ f ∈ T, env.loadsAfter base f = true → ∀ a ∈ T, ∀ b ∈ T,
-    env.loadsAfter base a = false → env.loadsAfter base b = false →
+  oneEnd : ∀ f ∈ parsed env T, env.loadsAfter base f = true → ∀ a ∈ parsed env T,
+    ∀ b ∈ parsed env T, env.loadsAfter base a = false → env.loadsAfter base b = false →
     nm a = nm f → nm b = nm f → a = b
-  oneCoord : ∀ f ∈ T, env.loadsAfter base f = true → ∀ a ∈ T, env.loadsAfter base a = false →
-    nm a = nm f → ∀ c ∈ K, ∀ c' ∈ K, env.fromFiles c a = true → env.fromFiles c' a = true → c = c'
+  oneCoord : ∀ f ∈ parsed env T, env.loadsAfter base f = true → ∀ a ∈ parsed env T,
+    env.loadsAfter base a = false → nm a = nm f →
+    ∀ c ∈ K, ∀ c' ∈ K, env.fromFiles c a = true → env.fromFiles c' a = true → c = c'
 
 /-- "its files": the end topology of the species whose start topology is `f` -/
 def endTop (env : Env) (base T : List String) (nm : String → String) (f : String) : Option String :=
@@ -84,18 +88,39 @@ private theorem aaFor_pairs (env : Env) (base T : List String) (nm : String → 
   intro a ha
   simp [List.mem_filter, ha]
 
+/-- the three loops on a list `T0` of molecule topologies, once the first loop is in closed form -/
+private theorem loops_spec (env : Env) (base T0 K0 : List String) (nm : String → String) :
+    loop3 env true K0
+        (loop2 (usedOf env base (T0.map (fun f => (f, nm f)))) (T0.map (fun f => (f, nm f)))
+          (dict1 env base (T0.map (fun f => (f, nm f)))))
+      = .ok (specDict env base T0 K0 nm) := by
+  simp only [loop2_spec, loop3_spec]
+  congr 1
+  rw [usedOf_pairs, dict1_pairs, List.map_map, List.map_map]
+  unfold specDict
+  apply List.map_congr_left
+  intro f _
+  have haa := aaFor_pairs env base T0 nm (nm f)
+  simp only [Function.comp_def, fillAA, Option.isNone_none, if_true, haa, fillCo, specInfo, endTop]
+  cases hfind : List.find? (fun a => !env.loadsAfter base a && nm a == nm f) T0 with
+  | none => simp
+  | some a => simp [coFor, endCoord]
+
 /-- **exact** (`discovery_exact`): on well-formed candidate lists discovery returns, for every
-    candidate that loads (in loading order), its name with exactly: that file as `top_CG`, the first
-    remaining candidate topology carrying its name as `top_AA`, the first remaining coordinate
-    file that loads with it as `coor_AA` — and nothing else. -/
+    candidate molecule topology that loads (in loading order), its name with exactly: that file as
+    `top_CG`, the first remaining candidate molecule topology carrying its name as `top_AA`, the
+    first remaining coordinate file that loads with it as `coor_AA` — and nothing else.  Candidate
+    files that are not molecule topologies are ignored. -/
 theorem discovery_exact (env : Env) (tops coords : List String)
     (known : List (String × String × String)) (nm : String → String)
     (h : WellFormed env (known.map (·.1)) (candTops tops known) nm) :
     sortMolecules env true tops coords known true =
-      .ok (specDict env (known.map (·.1)) (candTops tops known) (candCoords coords known) nm) := by
-  have hparse := parseAll_ok env nm (candTops tops known) h.parse
-  have hl1 := loop1_spec env (known.map (·.1)) ((candTops tops known).map (fun f => (f, nm f)))
-    (by rw [map_fst_pairs]; exact h.stable) (by rw [map_fst_pairs]; exact h.nodup)
+      .ok (specDict env (known.map (·.1)) (parsed env (candTops tops known))
+            (candCoords coords known) nm) := by
+  have hparse := parseAll_repaired env nm (candTops tops known) h.parse
+  have hl1 := loop1_spec env (known.map (·.1))
+    ((parsed env (candTops tops known)).map (fun f => (f, nm f)))
+    (by rw [map_fst_pairs]; exact h.stable) (by rw [map_fst_pairs]; exact h.nodup.filter _)
     (by
       intro p hp q hq hlp hlq hn
       simp only [List.mem_map] at hp hq
@@ -104,29 +129,20 @@ theorem discovery_exact (env : Env) (tops coords : List String)
       have := h.oneStart f hf g hg hlp hlq hn
       subst this; rfl)
   unfold candTops at hparse hl1
-  simp only [sortMolecules, Bool.not_true, Bool.false_eq_true, if_false, hparse, hl1,
-    loop2_spec, loop3_spec]
-  congr 1
-  rw [usedOf_pairs, dict1_pairs, List.map_map, List.map_map]
-  unfold specDict candTops candCoords
-  apply List.map_congr_left
-  intro f _
-  have haa := aaFor_pairs env (known.map (·.1))
-    (tops.filter (fun f => !isKnownTop known f)) nm (nm f)
-  simp only [Function.comp_def, fillAA, Option.isNone_none, if_true, haa, fillCo, specInfo, endTop]
-  cases hfind : List.find? (fun a => !env.loadsAfter (known.map (·.1)) a && nm a == nm f)
-      (tops.filter (fun f => !isKnownTop known f)) with
-  | none => simp
-  | some a => simp [coFor, endCoord]
+  simp only [sortMolecules, Bool.not_true, Bool.false_eq_true, if_false, hparse, hl1]
+  exact loops_spec env _ _ _ nm
 
-/-- **total** (`discovery_total`): with the repair of D9, discovery never raises once the known
-    topologies load and every candidate topology parses — in particular not for a species that has a
-    start topology among the candidates but no end topology (solvent). -/
+/-- **total** (`discovery_total`): with the repairs of D9 and O-a, discovery never raises once the
+    known topologies load — whatever the candidates: not for a species that has a start topology
+    among the candidates but no end topology (solvent), and not for candidate files that are not
+    molecule topologies.  The only hypothesis left is that a candidate fails to parse only by
+    `OSError` (a CORRUPT molecule topology — `ValueError`/`IndexError`/`KeyError` from a malformed
+    `[ atoms ]`/`[ bonds ]` line — still propagates: the repair deliberately catches `OSError` only). -/
 theorem discovery_total (env : Env) (tops coords : List String)
-    (known : List (String × String × String)) (nm : String → String)
-    (hparse : ∀ f ∈ candTops tops known, env.parseTop f = .ok (nm f)) :
+    (known : List (String × String × String))
+    (hos : ∀ f ∈ candTops tops known, ∀ e, env.parseTop f = .error e → e = .IOError) :
     ∃ d, sortMolecules env true tops coords known true = .ok d := by
-  have hp := parseAll_ok env nm (candTops tops known) hparse
+  obtain ⟨tm, hp⟩ := parseAll_total env (candTops tops known) hos
   unfold candTops at hp
   simp only [sortMolecules, Bool.not_true, Bool.false_eq_true, if_false, hp, loop3_spec]
   exact ⟨_, rfl⟩
@@ -145,10 +161,12 @@ theorem discovery_skips_known (env : Env) (tops coords : List String)
   intro e he
   simp only [specDict, List.mem_map, List.mem_filter] at he
   obtain ⟨f, ⟨hf, _⟩, rfl⟩ := he
-  have memT : ∀ x, x ∈ candTops tops known → isKnownTop known x = false ∧ x ∈ tops := by
+  have memT : ∀ x, x ∈ parsed env (candTops tops known) →
+      isKnownTop known x = false ∧ x ∈ tops := by
     intro x hx
-    simp only [candTops, List.mem_filter] at hx
-    exact ⟨by simpa using hx.2, hx.1⟩
+    have hx' := mem_parsed hx
+    simp only [candTops, List.mem_filter] at hx'
+    exact ⟨by simpa using hx'.2, hx'.1⟩
   refine ⟨memT f hf, ?_, ?_⟩
   · intro a ha
     exact memT a (List.mem_of_find?_eq_some ha)
@@ -159,21 +177,52 @@ theorem discovery_skips_known (env : Env) (tops coords : List String)
     simp only [candCoords, List.mem_filter] at this
     exact ⟨by simpa using this.2, this.1⟩
 
+/-- candidates that are not molecule topologies never appear in the result -/
+theorem discovery_ignores_unparseable (env : Env) (tops coords : List String)
+    (known : List (String × String × String)) (nm : String → String)
+    (h : WellFormed env (known.map (·.1)) (candTops tops known) nm) (d : Dict)
+    (hd : sortMolecules env true tops coords known true = .ok d) :
+    ∀ e ∈ d, parses env e.2.topCG = true ∧ ∀ a, e.2.topAA = some a → parses env a = true := by
+  rw [discovery_exact env tops coords known nm h] at hd
+  cases hd
+  intro e he
+  simp only [specDict, List.mem_map, List.mem_filter] at he
+  obtain ⟨f, ⟨hf, _⟩, rfl⟩ := he
+  refine ⟨(List.mem_filter.mp hf).2, ?_⟩
+  intro a ha
+  exact (List.mem_filter.mp (List.mem_of_find?_eq_some ha)).2
+
+/-- the uniqueness conditions on the list `P` of candidate molecule topologies -/
+private structure Core (env : Env) (base P K : List String) (nm : String → String) : Prop where
+  nodup : P.Nodup
+  oneStart : ∀ f ∈ P, ∀ g ∈ P, env.loadsAfter base f = true → env.loadsAfter base g = true →
+    nm f = nm g → f = g
+  oneEnd : ∀ f ∈ P, env.loadsAfter base f = true → ∀ a ∈ P, ∀ b ∈ P,
+    env.loadsAfter base a = false → env.loadsAfter base b = false →
+    nm a = nm f → nm b = nm f → a = b
+  oneCoord : ∀ f ∈ P, env.loadsAfter base f = true → ∀ a ∈ P, env.loadsAfter base a = false →
+    nm a = nm f → ∀ c ∈ K, ∀ c' ∈ K, env.fromFiles c a = true → env.fromFiles c' a = true → c = c'
+
+private theorem Unambiguous.core {env : Env} {base T K : List String} {nm : String → String}
+    (h : Unambiguous env base T K nm) : Core env base (parsed env T) K nm :=
+  ⟨h.nodup.filter _, h.oneStart, h.oneEnd, h.oneCoord⟩
+
 private theorem unambiguous_perm {env : Env} {base T T' K K' : List String} {nm : String → String}
     (hT : T.Perm T') (hK : K.Perm K') (h : Unambiguous env base T K nm) :
-    Unambiguous env base T' K' nm where
-  nodup := hT.nodup_iff.mp h.nodup
-  parse := fun f hf => h.parse f (hT.mem_iff.mpr hf)
-  stable := fun added f hf hna => h.stable added f (hT.mem_iff.mpr hf) hna
-  oneStart := fun f hf g hg => h.oneStart f (hT.mem_iff.mpr hf) g (hT.mem_iff.mpr hg)
-  oneEnd := fun f hf hl a ha b hb =>
-    h.oneEnd f (hT.mem_iff.mpr hf) hl a (hT.mem_iff.mpr ha) b (hT.mem_iff.mpr hb)
-  oneCoord := fun f hf hl a ha hla hn c hc c' hc' =>
-    h.oneCoord f (hT.mem_iff.mpr hf) hl a (hT.mem_iff.mpr ha) hla hn c (hK.mem_iff.mpr hc) c'
-      (hK.mem_iff.mpr hc')
+    Unambiguous env base T' K' nm := by
+  have hP : ∀ x, x ∈ parsed env T' → x ∈ parsed env T :=
+    fun x hx => (hT.filter (parses env)).mem_iff.mpr hx
+  exact {
+    nodup := hT.nodup_iff.mp h.nodup
+    parse := fun f hf => h.parse f (hT.mem_iff.mpr hf)
+    stable := fun added f hf hna => h.stable added f (hP f hf) hna
+    oneStart := fun f hf g hg => h.oneStart f (hP f hf) g (hP g hg)
+    oneEnd := fun f hf hl a ha b hb => h.oneEnd f (hP f hf) hl a (hP a ha) b (hP b hb)
+    oneCoord := fun f hf hl a ha hla hn c hc c' hc' =>
+      h.oneCoord f (hP f hf) hl a (hP a ha) hla hn c (hK.mem_iff.mpr hc) c' (hK.mem_iff.mpr hc') }
 
 private theorem specDict_perm {env : Env} {base T T' K K' : List String} {nm : String → String}
-    (hT : T.Perm T') (hK : K.Perm K') (h : Unambiguous env base T K nm) :
+    (hT : T.Perm T') (hK : K.Perm K') (h : Core env base T K nm) :
     (specDict env base T K nm).Perm (specDict env base T' K' nm) := by
   unfold specDict
   have hfun : ∀ f ∈ T.filter (fun f => env.loadsAfter base f),
@@ -202,10 +251,40 @@ private theorem specDict_perm {env : Env} {base T T' K K' : List String} {nm : S
   rw [List.map_congr_left hfun]
   exact (hT.filter _).map _
 
+/-- names are keys: every entry of the specified dictionary is what a look-up of its name gives -/
+private theorem specDict_lookup {env : Env} {base T K : List String} {nm : String → String}
+    (hu : Core env base T K nm) :
+    ∀ e, e ∈ specDict env base T K nm → (specDict env base T K nm).lookup e.1 = some e.2 := by
+  intro e he
+  unfold specDict at he ⊢
+  have hnd : (T.filter (fun f => env.loadsAfter base f)).Nodup := hu.nodup.filter _
+  have hinj : ∀ f ∈ T.filter (fun f => env.loadsAfter base f),
+      ∀ g ∈ T.filter (fun f => env.loadsAfter base f), nm f = nm g → f = g := by
+    intro f hf g hg hn
+    rw [List.mem_filter] at hf hg
+    exact hu.oneStart f hf.1 g hg.1 hf.2 hg.2 hn
+  generalize T.filter (fun f => env.loadsAfter base f) = l at he hnd hinj
+  induction l with
+  | nil => simp at he
+  | cons x xs ih =>
+    simp only [List.map_cons, List.mem_cons] at he
+    rcases he with rfl | he
+    · simp
+    · have hx : x ∉ xs := (List.nodup_cons.mp hnd).1
+      obtain ⟨g, hg, rfl⟩ := List.mem_map.mp he
+      have hne : (nm g == nm x) = false := by
+        simp only [beq_eq_false_iff_ne, ne_eq]
+        intro hn
+        have := hinj g (List.mem_cons_of_mem _ hg) x (List.mem_cons_self ..) hn
+        exact hx (this ▸ hg)
+      simp only [List.map_cons, List.lookup, hne]
+      exact ih (List.mem_map_of_mem hg) (List.nodup_cons.mp hnd).2
+        (fun f hf g' hg' => hinj f (List.mem_cons_of_mem _ hf) g' (List.mem_cons_of_mem _ hg'))
+
 /-- **permutation invariance** (`discovery_perm_invariant`): on an unambiguous directory the
     name ↦ {top_CG, top_AA, coor_AA} dictionary is the same for EVERY permutation of the two
     candidate lists (the results are permutations of each other: same entries, and since names are
-    unique, the same map). -/
+    unique, the same map) — candidate files that are not molecule topologies included. -/
 theorem discovery_perm_invariant (env : Env) (tops tops' coords coords' : List String)
     (known : List (String × String × String)) (nm : String → String)
     (hT : tops.Perm tops') (hK : coords.Perm coords')
@@ -215,53 +294,28 @@ theorem discovery_perm_invariant (env : Env) (tops tops' coords coords' : List S
             d.Perm d' ∧ ∀ n, d.lookup n = d'.lookup n := by
   have hT' : (candTops tops known).Perm (candTops tops' known) := hT.filter _
   have hK' : (candCoords coords known).Perm (candCoords coords' known) := hK.filter _
+  have hP' : (parsed env (candTops tops known)).Perm (parsed env (candTops tops' known)) :=
+    hT'.filter _
   have h' := unambiguous_perm hT' hK' h
-  have hperm := specDict_perm hT' hK' h
+  have hperm := specDict_perm hP' hK' h.core
   refine ⟨_, _, discovery_exact env tops coords known nm h.toWellFormed,
     discovery_exact env tops' coords' known nm h'.toWellFormed, hperm, ?_⟩
   -- names are unique, so equal entries give equal look-ups
   intro n
-  have hkeys : ∀ (T K : List String), Unambiguous env (known.map (·.1)) T K nm →
-      ∀ e, e ∈ specDict env (known.map (·.1)) T K nm →
-      (specDict env (known.map (·.1)) T K nm).lookup e.1 = some e.2 := by
-    intro T K hu e he
-    unfold specDict at he ⊢
-    -- induction over the (duplicate-free) list of loading candidates
-    have hnd : (T.filter (fun f => env.loadsAfter (known.map (·.1)) f)).Nodup := hu.nodup.filter _
-    have hinj : ∀ f ∈ T.filter (fun f => env.loadsAfter (known.map (·.1)) f),
-        ∀ g ∈ T.filter (fun f => env.loadsAfter (known.map (·.1)) f), nm f = nm g → f = g := by
-      intro f hf g hg hn
-      rw [List.mem_filter] at hf hg
-      exact hu.oneStart f hf.1 g hg.1 hf.2 hg.2 hn
-    generalize T.filter (fun f => env.loadsAfter (known.map (·.1)) f) = l at he hnd hinj
-    induction l with
-    | nil => simp at he
-    | cons x xs ih =>
-      simp only [List.map_cons, List.mem_cons] at he
-      rcases he with rfl | he
-      · simp
-      · have hx : x ∉ xs := (List.nodup_cons.mp hnd).1
-        obtain ⟨g, hg, rfl⟩ := List.mem_map.mp he
-        have hne : (nm g == nm x) = false := by
-          simp only [beq_eq_false_iff_ne, ne_eq]
-          intro hn
-          have := hinj g (List.mem_cons_of_mem _ hg) x (List.mem_cons_self ..) hn
-          exact hx (this ▸ hg)
-        simp only [List.map_cons, List.lookup, hne]
-        exact ih (List.mem_map_of_mem hg) (List.nodup_cons.mp hnd).2
-          (fun f hf g' hg' => hinj f (List.mem_cons_of_mem _ hf) g' (List.mem_cons_of_mem _ hg'))
-  cases hl : (specDict env (known.map (·.1)) (candTops tops known) (candCoords coords known) nm).lookup n with
+  cases hl : (specDict env (known.map (·.1)) (parsed env (candTops tops known))
+      (candCoords coords known) nm).lookup n with
   | some i =>
     have hmem := mem_of_lookup hl   -- (n, i) ∈ d
     have hmem' := hperm.mem_iff.mp hmem
-    exact (hkeys _ _ h' (n, i) hmem').symm
+    exact (specDict_lookup h'.core (n, i) hmem').symm
   | none =>
-    cases hl' : (specDict env (known.map (·.1)) (candTops tops' known) (candCoords coords' known) nm).lookup n with
+    cases hl' : (specDict env (known.map (·.1)) (parsed env (candTops tops' known))
+        (candCoords coords' known) nm).lookup n with
     | none => rfl
     | some i =>
       have hmem' := mem_of_lookup hl'
       have hmem := hperm.mem_iff.mpr hmem'
-      have := hkeys _ _ h (n, i) hmem
+      have := specDict_lookup h.core (n, i) hmem
       rw [hl] at this
       exact absurd this (by simp)
 
@@ -482,8 +536,9 @@ theorem cli_equals_library (L : Lib Mol Mg T S Out) (ref : List Char)
 deriving instance DecidableEq for Except
 
 /-- a directory with species `A` (start `a.itp`, end `A.itp` + `A.gro`), a solvent `W` with a start
-    topology only (`w.itp`), a distractor topology `x.itp` of a species not in the system and an
-    unrelated coordinate file `z.gro`.  Configurations of the model environment: -/
+    topology only (`w.itp`), a distractor topology `x.itp` of a species not in the system, a
+    force-field include `ff.itp` that is not a molecule topology (`MoleculeTop` raises `OSError`) and
+    an unrelated coordinate file `z.gro`.  The model environment: -/
 private def envEx : Env where
   parseTop := fun f =>
     if f == "a.itp" || f == "A.itp" then .ok "A" else if f == "w.itp" then .ok "W"
@@ -494,8 +549,10 @@ private def envEx : Env where
 private def nmEx (f : String) : String :=
   if f == "a.itp" || f == "A.itp" then "A" else if f == "w.itp" then "W" else "X"
 
-private def topsEx : List String := ["A.itp", "w.itp", "x.itp", "a.itp"]
+private def topsEx : List String := ["A.itp", "ff.itp", "w.itp", "x.itp", "a.itp"]
 private def coordsEx : List String := ["z.gro", "A.gro"]
+
+private theorem parsedEx : parsed envEx topsEx = ["A.itp", "w.itp", "x.itp", "a.itp"] := by decide
 
 /-- the hypotheses of `discovery_perm_invariant` hold for it -/
 example : Unambiguous envEx [] (candTops topsEx []) (candCoords coordsEx []) nmEx := by
@@ -505,15 +562,17 @@ example : Unambiguous envEx [] (candTops topsEx []) (candCoords coordsEx []) nmE
   refine { nodup := by decide, parse := ?_, stable := ?_, oneStart := ?_, oneEnd := ?_, oneCoord := ?_ }
   · intro f hf
     simp only [topsEx, List.mem_cons, List.not_mem_nil, or_false] at hf
-    rcases hf with rfl | rfl | rfl | rfl <;> simp [envEx, nmEx]
+    rcases hf with rfl | rfl | rfl | rfl | rfl <;> simp [envEx, nmEx]
   · intro added f hf hna
     simp [envEx, hna]
   · intro f hf g hg hlf hlg hn
-    simp only [topsEx, List.mem_cons, List.not_mem_nil, or_false] at hf hg
+    rw [parsedEx] at hf hg
+    simp only [List.mem_cons, List.not_mem_nil, or_false] at hf hg
     rcases hf with rfl | rfl | rfl | rfl <;> rcases hg with rfl | rfl | rfl | rfl <;>
       first | rfl | (exfalso; revert hlf hlg hn; decide)
   · intro f hf hlf a ha b hb hla hlb hna hnb
-    simp only [topsEx, List.mem_cons, List.not_mem_nil, or_false] at hf ha hb
+    rw [parsedEx] at hf ha hb
+    simp only [List.mem_cons, List.not_mem_nil, or_false] at hf ha hb
     rcases hf with rfl | rfl | rfl | rfl <;> rcases ha with rfl | rfl | rfl | rfl <;>
       rcases hb with rfl | rfl | rfl | rfl <;>
       first | rfl | (exfalso; revert hlf hla hlb hna hnb; decide)
@@ -522,13 +581,25 @@ example : Unambiguous envEx [] (candTops topsEx []) (candCoords coordsEx []) nmE
     rcases hc with rfl | rfl <;> rcases hc' with rfl | rfl <;>
       first | rfl | (exfalso; revert h1 h2; simp [envEx])
 
-/-- the repaired discovery returns `A ↦ all three files`, `W ↦ start topology only` … -/
+/-- the repaired discovery returns `A ↦ all three files`, `W ↦ start topology only`, and ignores the
+    force-field include … -/
 example : sortMolecules envEx true topsEx coordsEx [] true =
     .ok [("W", ⟨"w.itp", none, none⟩), ("A", ⟨"a.itp", some "A.itp", some "A.gro"⟩)] := by
   decide
 
-/-- … whereas the code as found raises `KeyError: 'top_AA'` on the solvent (defect D9) -/
-example : sortMolecules envEx false topsEx coordsEx [] true = .error .KeyError := by
+/-- … whereas the code as found raises `IOError` on the force-field include (defect O-a) … -/
+example : sortMolecules envEx false topsEx coordsEx [] true = .error .IOError := by
+  decide
+
+/-- … and, without it, `KeyError: 'top_AA'` on the solvent (defect D9) -/
+example : sortMolecules envEx false ["A.itp", "w.itp", "x.itp", "a.itp"] coordsEx [] true
+    = .error .KeyError := by
+  decide
+
+/-- a corrupt molecule topology (`ValueError`) still aborts the repaired discovery -/
+example : sortMolecules { envEx with parseTop := fun f => if f == "bad.itp" then .error .ValueError
+                                                        else envEx.parseTop f }
+    true ("bad.itp" :: topsEx) coordsEx [] true = .error .ValueError := by
   decide
 
 /-- `--exclude W` and the "all three files" rule: only `A` reaches `auto_map`, after the explicit one -/
